@@ -399,6 +399,86 @@ pub fn run(tier: Tier) -> i32 {
             rep.violation(&format!("C15/{}/style={}", kind, ["plain", "labelled-directives", "glued-comments", "backslash-comment-lines"][style]), || format!("slots {:?}: {}", kinds, what), || json!({"kind": "build_str", "source": text, "observed": o.to_json()}));
         }
     });
+    // a second skeleton with .elif chains: an arm behind the selected one is never assembled, however
+    // its condition reads
+    let n_msg_b = AtomicU64::new(0);
+    (0..4096usize * 4).into_par_iter().for_each(|code_style| {
+        let (code, style) = (code_style % 4096, code_style / 4096);
+        let cond = |text: &str, n: usize| -> String {
+            match style {
+                1 => format!("cm_{}: {}", n, text),
+                2 => format!("{};note:{}", text, n),
+                _ => text.to_string(),
+            }
+        };
+        let kinds: Vec<usize> = (0..6).map(|i| (code >> (2 * i)) & 3).collect();
+        let mut lines: Vec<String> = (0..12).map(|i| if style == 3 && i % 3 == 2 { "; header \\".to_string() } else { "; header".to_string() }).collect();
+        let mut slot_line: Vec<Option<usize>> = vec![None; 6];
+        let put = |lines: &mut Vec<String>, slot: usize, slot_line: &mut Vec<Option<usize>>| {
+            if let Some(t) = slot_text(kinds[slot], slot) {
+                lines.push(t);
+                slot_line[slot] = Some(lines.len());
+            }
+        };
+        lines.push("ldi r16, 1".into());
+        put(&mut lines, 0, &mut slot_line);
+        lines.push(cond(".if 0", 1));
+        lines.push("ldi r16, 2".into());
+        put(&mut lines, 1, &mut slot_line);
+        lines.push(cond(".elif 1", 2));
+        lines.push("ldi r16, 3".into());
+        put(&mut lines, 2, &mut slot_line);
+        lines.push(cond(".elif 1", 3));
+        put(&mut lines, 3, &mut slot_line);
+        lines.push("ldi r16, 4".into());
+        lines.push(cond(".else", 4));
+        put(&mut lines, 4, &mut slot_line);
+        lines.push("ldi r16, 5".into());
+        lines.push(cond(".endif", 5));
+        lines.push(cond(".if 1", 6));
+        lines.push("ldi r16, 6".into());
+        lines.push(cond(".elif 1", 7));
+        put(&mut lines, 5, &mut slot_line);
+        lines.push(cond(".endif", 8));
+        lines.push("ldi r16, 7".into());
+        let text = lines.join("\n") + "\n";
+        let assembled = [true, false, true, false, false, false];
+        let first_error = (0..6).find(|s| assembled[*s] && kinds[*s] == 3);
+        let o = sut::build_str(&text);
+        n_msg_b.fetch_add(1, Ordering::Relaxed);
+        evals.fetch_add(1, Ordering::Relaxed);
+        let bad: Option<(&str, String)> = match (&o, first_error) {
+            (Outcome::Err(e), Some(sl)) => {
+                let ln = slot_line[sl].unwrap();
+                if has_number_token(e, ln) { None } else { Some(("error-directive-no-line", format!(".error on line {} is assembled but the failure does not name that line: {}", ln, e))) }
+            }
+            (Outcome::Ok(_), Some(sl)) => Some(("error-directive-ignored", format!(".error in assembled slot {} does not fail the build", sl))),
+            (Outcome::Err(e), None) => Some(("message-fails-build", format!("no .error is assembled but the build fails: {}", e))),
+            (Outcome::Ok(b), None) => {
+                let want_code: Vec<u8> = [1u8, 3, 6, 7].iter().flat_map(|k| vec![*k, 0xe0]).collect();
+                let expected: Vec<(usize, usize)> = (0..6).filter(|s| assembled[*s] && (kinds[*s] == 1 || kinds[*s] == 2)).map(|s| (s, slot_line[s].unwrap())).collect();
+                if b.code != want_code {
+                    Some(("message-changes-image", format!("image {} differs from {}", sut::hex(&b.code), sut::hex(&want_code))))
+                } else if b.messages.len() != expected.len() {
+                    Some(("message-list", format!("{} messages reported, {} .message/.warning lines are assembled: {:?}", b.messages.len(), expected.len(), b.messages)))
+                } else {
+                    b.messages.iter().zip(expected.iter()).find_map(|(m, (sl, ln))| {
+                        if !m.contains(&format!("mk{}q", sl)) {
+                            Some(("message-order", format!("messages are not in source order: {:?}", b.messages)))
+                        } else if !has_number_token(m, *ln) {
+                            Some(("message-line-number", format!("message `{}` does not carry its line number {}", m, ln)))
+                        } else {
+                            None
+                        }
+                    })
+                }
+            }
+            (Outcome::Panic { site, msg }, _) => Some(("panic", format!("panic at {}: {}", site, msg))),
+        };
+        if let Some((kind, what)) = bad {
+            rep.violation(&format!("C15/{}/elif-skeleton/style={}", kind, ["plain", "labelled-directives", "glued-comments", "backslash-comment-lines"][style]), || format!("slots {:?}: {}", kinds, what), || json!({"kind": "build_str", "source": text, "observed": o.to_json()}));
+        }
+    });
     let fu = fault_use.lock().unwrap().clone();
     for f in FAULTS.iter() {
         rep.guard(fu.get(f.name).copied().unwrap_or(0) > 20, &format!("fault kind {} was injected at fewer than 20 positions", f.name));
@@ -419,6 +499,7 @@ pub fn run(tier: Tier) -> i32 {
         "errors_naming_the_line": named.load(Ordering::Relaxed),
         "distinct_error_shapes": distinct_err.lock().unwrap().len(),
         "message_placements": n_msg.load(Ordering::Relaxed),
+        "message_placements_in_the_elif_skeleton": n_msg_b.load(Ordering::Relaxed),
         "faults_inside_a_called_macro_body": n_in_macro.load(Ordering::Relaxed),
         "caps_hit": [],
         "trusted_base": ["harness lexer for liveness/segment context", "decimal token match"],
